@@ -1,9 +1,11 @@
 (** TreeOrderProofs: the key-order hypothesis of the cursor theorems ([Cursor.wf (to_ctree t) = true]) seen from Tree.nt.
-    W1: an inductive mirror [ob lo hi t] of [Cursor.wfb] on nt and its soundness.
-    W2/W3 are NOT proved; instead this file shows by vm_compute that they are FALSE as sketched: [Cursor.wfb] is not an
+    W1: an inductive mirror [ob lo hi t] of [Cursor.wfb] on nt; on aligned trees it is EXACTLY Cursor.wfb ([ob_iff_wfb]).
+    Reduction of W3: a tree without stale separators ([ff]) that is globally sorted, has no empty non-root vertex and a
+    non-empty root satisfies Cursor.wf ([ff_cursor_wf]); what remains open is [ff t'] for the committed tree.
+    W2/W3 themselves are NOT proved; this file shows by vm_compute that they are FALSE as first sketched: [Cursor.wfb] is not an
     invariant of rebalance (only of rebalance followed by spill), and W3 needs one more hypothesis (a first child that
     holds keys below its stale separator must be materialised down to the leaf that holds them). *)
-From Bbolt Require Import Base Consts Spec Node Tree NodeProofs TreeProofs TreeCursorProofs.
+From Bbolt Require Import Base Consts Spec Node Tree NodeProofs TreeProofs TreeNestedProofs TreeCursorProofs.
 From Bbolt Require Cursor CursorNavProofs.
 
 (** * W1: the order invariant on nt, mirroring Cursor.wfb *)
@@ -138,3 +140,134 @@ Proof. vm_compute. split; reflexivity. Qed.
     Rebalance preserves (a)+(b) but NOT ob (example 1); spill restores ob because it re-keys every materialised child by
     its first key; so W3 has to be proved for rebalance_all-then-spill_root as a whole, with an intermediate invariant in
     which a materialised non-first child may still hold keys below its separator (but >= the previous sibling's keys). *)
+
+(** * the converse of W1: on aligned trees [ob] is EXACTLY Cursor.wfb *)
+Lemma next_hi_eq il kids i hi : length il = length kids ->
+  match nth_error (combine (map i_key il) (map to_ctree kids)) (S i) with Some (s', _) => Some s' | None => hi end = next_hi il i hi.
+Proof.
+  intros L. assert (Lc : length (map i_key il) = length (map to_ctree kids)) by now rewrite !map_length.
+  unfold next_hi. destruct (nth_error (combine (map i_key il) (map to_ctree kids)) (S i)) as [[s' c2]|] eqn:En.
+  - apply nth_combine in En. destruct En as [Es _]. apply map_nth_error_inv in Es. destruct Es as (y & Ey & <-). now rewrite Ey.
+  - apply (nth_combine_none _ _ _ Lc) in En. destruct (nth_error il (S i)) as [y|] eqn:Ey; [|reflexivity].
+    rewrite (map_nth_error i_key _ _ Ey) in En. discriminate.
+Qed.
+
+Lemma nth_combine_some {A B} : forall (a : list A) (b : list B) i x y, nth_error a i = Some x -> nth_error b i = Some y ->
+  nth_error (combine a b) i = Some (x, y).
+Proof.
+  induction a as [|x0 a IH]; intros [|y0 b] i x y Ha Hb; try (destruct i; discriminate).
+  destruct i; cbn in *; [congruence | eauto].
+Qed.
+
+Theorem wfb_ob : forall d t lo hi, wf d t -> Cursor.wfb (to_ctree t) lo hi = true -> ob lo hi t.
+Proof.
+  induction d as [|d IH]; intros t lo hi W H; inversion W as [? ? Hl|? ? ? ? Hl Hlen Hk]; subst; rewrite to_ctree_eq, Hl in H.
+  - cbn [Cursor.wfb] in H. rewrite map_map in H. cbn [elem fst] in H. apply andb_true_iff in H. destruct H as [SI FB].
+    constructor; auto. apply Forall_forall. intros x Hx. rewrite forallb_forall in FB.
+    specialize (FB (i_key x) (in_map i_key _ _ Hx)). now apply andb_true_iff in FB.
+  - rewrite CursorNavProofs.wfb_branch in H.
+    assert (Lc : length (map i_key ins) = length (map to_ctree kids)) by now rewrite !map_length.
+    rewrite (map_fst_combine _ _ Lc) in H.
+    apply andb_true_iff in H. destruct H as [H W4]. apply andb_true_iff in H. destruct H as [H W3]. apply andb_true_iff in H. destruct H as [W1 W2].
+    constructor; auto.
+    + intros E. subst ins. cbn in W1. discriminate.
+    + apply Forall_forall. intros x Hx. rewrite forallb_forall in W3. apply W3. now apply in_map.
+    + intros i x c Ex Ec.
+      pose proof (nth_combine_some _ _ i _ _ (map_nth_error i_key _ _ Ex) (map_nth_error to_ctree _ _ Ec)) as En.
+      pose proof (CursorNavProofs.wfgo_nth lo hi _ true i _ _ W4 En) as Hc. cbn [andb] in Hc.
+      rewrite (next_hi_eq _ _ _ _ Hlen) in Hc. apply (IH c); auto.
+      rewrite Forall_forall in Hk. apply Hk. eapply nth_error_In; eauto.
+Qed.
+
+Theorem ob_iff_wfb d t lo hi : wf d t -> (ob lo hi t <-> Cursor.wfb (to_ctree t) lo hi = true).
+Proof. intros W. split; [apply (ob_wfb d); auto | apply (wfb_ob d); auto]. Qed.
+Corollary ob_iff_cursor_wf t : aligned t -> (ob None None t <-> Cursor.wf (to_ctree t) = true).
+Proof. intros [d W]. apply (ob_iff_wfb d t None None W). Qed.
+Print Assumptions ob_iff_cursor_wf.
+
+(** * the spill half, reduced: a criterion for [ob] on a tree WITHOUT stale separators
+    [ff t] ("fully fresh"): at every branch vertex every separator is a lower bound of the keys below its child, and
+    the keys below child i are smaller than separator i+1.  This is what a committed tree looks like (spill re-keys every
+    materialised child by its first key; unmaterialised children are fresh by hypothesis (b)).  Together with the global
+    key order, P4 (no empty non-root vertex) and a non-empty root it gives the cursor model's well-formedness; so W3 is
+    reduced to showing [ff t'] for the committed tree (NOT proved here). *)
+Definition lbk (k : bytes) (l : list inode) : Prop := Forall (fun y => blt (i_key y) k = false) l.
+Definition ubk (l : list inode) (k : bytes) : Prop := Forall (fun y => blt (i_key y) k = true) l.
+Definition inb (lo hi : option bytes) (l : list inode) : Prop :=
+  Forall (fun y => Cursor.in_lo lo (i_key y) = true /\ Cursor.in_hi (i_key y) hi = true) l.
+
+Inductive ff : nt -> Prop :=
+| ff_leaf h il kids : h_leaf h = true -> ff (NT h il kids)
+| ff_branch h il kids : h_leaf h = false ->
+    (forall i x c, nth_error il i = Some x -> nth_error kids i = Some c -> lbk (i_key x) (flat c) /\ ff c) ->
+    (forall i y c, nth_error il (S i) = Some y -> nth_error kids i = Some c -> ubk (flat c) (i_key y)) ->
+    ff (NT h il kids).
+
+Lemma str_inc_sorted ks : Cursor.str_inc ks = keys_sorted ks.
+Proof. induction ks as [|k r IH]; [reflexivity|]. cbn. destruct r; [reflexivity|]. now rewrite IH. Qed.
+
+Lemma str_inc_nth : forall l, (forall i a b, nth_error l i = Some a -> nth_error l (S i) = Some b -> blt a b = true) -> Cursor.str_inc l = true.
+Proof.
+  induction l as [|k r IH]; intros H; [reflexivity|]. cbn [Cursor.str_inc]. destruct r as [|k' r']; [reflexivity|].
+  apply andb_true_iff. split; [apply (H 0%nat); reflexivity|]. apply IH. intros i a b Ha Hb. apply (H (S i)); auto.
+Qed.
+
+Lemma flat_nonempty : forall d c, wf d c -> ins_of c <> [] -> good [] c -> flat c <> [].
+Proof.
+  unfold good. induction d as [|d IH]; intros c W Ne G; inversion W as [? ? Hl|? ? ? ? Hl Hlen Hk]; subst;
+    rewrite flat_eq, Hl; cbn [ins_of kids_of] in *; [exact Ne|].
+  destruct kids as [|c0 kr]; [destruct ins; [congruence | discriminate]|]. cbn [flat_map].
+  pose proof (Forall_inv G) as A0. pose proof (Forall_inv Hk) as W0.
+  intros E. apply app_eq_nil in E. destruct E as [E _]. revert E. apply (IH c0 W0); [now apply ag_nil_ne | now apply ag_kids].
+Qed.
+
+Lemma flat_kid_incl h il kids i c y : h_leaf h = false -> nth_error kids i = Some c -> In y (flat c) -> In y (flat (NT h il kids)).
+Proof. intros Hl Ec Hy. rewrite flat_eq, Hl. apply in_flat_map. exists c. split; auto. eapply nth_error_In; eauto. Qed.
+
+Theorem ff_ob : forall d t lo hi, wf d t -> isorted (flat t) -> ff t -> ins_of t <> [] -> good [] t -> inb lo hi (flat t) -> ob lo hi t.
+Proof.
+  induction d as [|d IH]; intros t lo hi W Srt F Ne G B; inversion W as [? ? Hl|? ? ? ? Hl Hlen Hk]; subst; cbn [ins_of] in Ne.
+  - rewrite flat_eq, Hl in Srt, B. constructor; auto.
+  - inversion F as [? ? ? Hl'|? ? ? _ FL FU]; subst; [congruence|].
+    assert (Kid : forall i x, nth_error ins i = Some x -> exists c, nth_error kids i = Some c).
+    { intros i x Ex. destruct (nth_error kids i) as [c|] eqn:Ec; [eauto|]. apply nth_error_None in Ec.
+      apply nth_error_Some_lt in Ex. lia. }
+    assert (Wit : forall i c, nth_error kids i = Some c -> exists y, In y (flat c)).
+    { intros i c Ec. unfold good in G. cbn [kids_of] in G. rewrite Forall_forall in G, Hk.
+      pose proof (nth_error_In _ _ Ec) as Hc.
+      pose proof (flat_nonempty d c (Hk c Hc) (ag_nil_ne _ (G c Hc)) (ag_kids _ _ (G c Hc))) as Nf.
+      destruct (flat c) as [|y r]; [congruence | exists y; now left]. }
+    assert (Bin : forall i c y, nth_error kids i = Some c -> In y (flat c) ->
+              Cursor.in_lo lo (i_key y) = true /\ Cursor.in_hi (i_key y) hi = true).
+    { intros i c y Ec Hy. unfold inb in B. rewrite Forall_forall in B. apply B. eapply flat_kid_incl; eauto. }
+    constructor; auto.
+    + apply str_inc_nth. intros i a b Ha Hb. apply map_nth_error_inv in Ha. apply map_nth_error_inv in Hb.
+      destruct Ha as (x & Ex & <-). destruct Hb as (x' & Ex' & <-).
+      destruct (Kid i x Ex) as (c & Ec). destruct (Wit i c Ec) as (y & Hy).
+      destruct (FL i x c Ex Ec) as [Lb _]. pose proof (FU i x' c Ex' Ec) as Ub.
+      unfold lbk, ubk in *. rewrite Forall_forall in Lb, Ub.
+      eapply CursorNavProofs.blt_le_lt_trans; [apply (Lb y Hy) | apply (Ub y Hy)].
+    + apply Forall_forall. intros x Hx. apply In_nth_error in Hx. destruct Hx as (i & Ex).
+      destruct (Kid i x Ex) as (c & Ec). destruct (Wit i c Ec) as (y & Hy). destruct (FL i x c Ex Ec) as [Lb _].
+      unfold lbk in Lb. rewrite Forall_forall in Lb. destruct (Bin i c y Ec Hy) as [_ Bh].
+      destruct hi as [hh|]; [|reflexivity]. cbn [Cursor.in_hi] in *.
+      eapply CursorNavProofs.blt_le_lt_trans; [apply (Lb y Hy) | exact Bh].
+    + intros i x c Ex Ec. destruct (FL i x c Ex Ec) as [Lb Fc].
+      unfold good in G. cbn [kids_of] in G. rewrite Forall_forall in G, Hk. pose proof (nth_error_In _ _ Ec) as Hc.
+      destruct (nth_error_decomp _ _ _ Ec) as (a & b & Ek & La).
+      assert (Sc : isorted (flat c)).
+      { rewrite flat_eq, Hl, Ek, flat_map_app in Srt. cbn [flat_map] in Srt. eapply isorted_mid; eauto. }
+      apply (IH c); auto; [apply ag_nil_ne; auto | apply ag_kids; auto|].
+      apply Forall_forall. intros y Hy. destruct (Bin i c y Ec Hy) as [Bl Bh]. split.
+      * destruct i; [exact Bl|]. cbn [Nat.eqb Cursor.in_lo]. unfold lbk in Lb. rewrite Forall_forall in Lb. now rewrite (Lb y Hy).
+      * unfold next_hi. destruct (nth_error ins (S i)) as [x'|] eqn:Ex'; [|exact Bh].
+        pose proof (FU i x' c Ex' Ec) as Ub. unfold ubk in Ub. rewrite Forall_forall in Ub. cbn [Cursor.in_hi]. auto.
+Qed.
+
+(** W3 reduced to [ff t']: *)
+Corollary ff_cursor_wf t : aligned t -> isorted (flat t) -> ff t -> ins_of t <> [] -> good [] t -> Cursor.wf (to_ctree t) = true.
+Proof.
+  intros [d W] S F Ne G. apply ob_cursor_wf; [exists d; auto|]. apply (ff_ob d); auto.
+  apply Forall_forall. intros y _. split; reflexivity.
+Qed.
+Print Assumptions ff_cursor_wf.
